@@ -1151,4 +1151,46 @@ class SeedTask(object):
                 else:
                     all_subtiles = False""", 'C11.d'),
     M('M-C11d-limit-sub-bbox-axis', 'mapproxy/seed/util.py', "    miny = max(bbox[1], sub_bbox[1])", "    miny = max(bbox[1], sub_bbox[0])", 'C11.d|C03.g'),
+    # ---------------------------------------------------------------- C03
+    M('M-C03a-tilebbox-axis-x', 'mapproxy/grid.py', "x1 = x0 + round(res * self.tile_size[0], 12)", "x1 = x0 + round(res * self.tile_size[1], 12)", 'C03.a'),
+    M('M-C03a-tile-axis', 'mapproxy/grid.py', "tile_y = y/float(res*self.tile_size[1])", "tile_y = y/float(res*self.tile_size[0])", 'C03.a'),
+    E('E-C03a-unpacked-size', 'mapproxy/grid.py', """        tile_x = x/float(res*self.tile_size[0])
+        tile_y = y/float(res*self.tile_size[1])""", """        tw, th = self.tile_size
+        tile_x = x/float(res*tw)
+        tile_y = y/float(res*th)""", 'tw, th = self.tile_size then use th'),
+    M('M-C03a-unpacked-size-swapped', 'mapproxy/grid.py', """        tile_x = x/float(res*self.tile_size[0])
+        tile_y = y/float(res*self.tile_size[1])""", """        tw, th = self.tile_size
+        tile_x = x/float(res*th)
+        tile_y = y/float(res*tw)""", 'C03.a'),
+    M('M-C03a-pattern-offset', 'mapproxy/grid.py', "i*self.grid.tile_size[1] + buffers[3])", "i*self.grid.tile_size[1] + buffers[0])", 'C03.a'),
+    M('M-C03b-flip-no-minus-one', 'mapproxy/grid.py', "return (x, self.grid_sizes[z][1]-1-y, z)", "return (x, self.grid_sizes[z][1]-y, z)", 'C03.b'),
+    M('M-C03b-flip-columns', 'mapproxy/grid.py', "return (x, self.grid_sizes[z][1]-1-y, z)", "return (x, self.grid_sizes[z][0]-1-y, z)", 'C03.b|C03.a'),
+    E('E-C03b-reordered', 'mapproxy/grid.py', "return (x, self.grid_sizes[z][1]-1-y, z)", "return (x, -y + self.grid_sizes[z][1] - 1, z)", 'same affine form'),
+    E('E-C03c-intersects-touch', 'mapproxy/grid.py', "        a_x0 < b_x1 and\n        a_x1 > b_x0 and", "        a_x0 <= b_x1 and\n        a_x1 >= b_x0 and", 'boundary not fixed'),
+    M('M-C03c-intersects-indices', 'mapproxy/grid.py', "        a_y0 < b_y1 and\n        a_y1 > b_y0", "        a_y0 < b_x1 and\n        a_y1 > b_y0", 'C03.c|C03.a'),
+    M('M-C03d-inset-one-corner', 'mapproxy/grid.py', """        delta = self.resolutions[level] / 10.0
+        x0, y0, _ = self.tile(bbox[0]+delta, bbox[1]+delta, level)
+        x1, y1, _ = self.tile(bbox[2]-delta, bbox[3]-delta, level)""", """        delta = self.resolutions[level] / 10.0
+        x0, y0, _ = self.tile(bbox[0]+delta, bbox[1]+delta, level)
+        x1, y1, _ = self.tile(bbox[2], bbox[3], level)""", 'C03.d'),
+    M('M-C03d-inset-sign', 'mapproxy/grid.py', """        x0, y0, _ = self.grid.tile(bbox[0]+delta, bbox[1]+delta, level)
+        x1, y1, _ = self.grid.tile(bbox[2]-delta, bbox[3]-delta, level)""", """        x0, y0, _ = self.grid.tile(bbox[0]-delta, bbox[1]-delta, level)
+        x1, y1, _ = self.grid.tile(bbox[2]+delta, bbox[3]+delta, level)""", 'C03.d'),
+    M('M-C03e-tilebbox-drop-size', 'mapproxy/grid.py', "x0 = self.bbox[0] + round(x * res * self.tile_size[0], 12)", "x0 = self.bbox[0] + round(x * res, 12)", 'C03.e'),
+    M('M-C03e-tile-multiply', 'mapproxy/grid.py', "tile_x = x/float(res*self.tile_size[0])", "tile_x = x*float(res*self.tile_size[0])", 'C03.e'),
+    M('M-C03e-buffer-without-res', 'mapproxy/grid.py', "            minx -= self.meta_buffer * res", "            minx -= self.meta_buffer", 'C03.e'),
+    E('E-C03e-hoisted-span', 'mapproxy/grid.py', """        x0 = self.bbox[0] + round(x * res * self.tile_size[0], 12)
+        x1 = x0 + round(res * self.tile_size[0], 12)""", """        span = res * self.tile_size[0]
+        x0 = self.bbox[0] + round(x * span, 12)
+        x1 = x0 + round(span, 12)""", 'hoisted span'),
+    M('M-C03f-roworder-meta', 'mapproxy/grid.py', "            ys = list(range(y1, y0-1, -meta_size[1]))", "            ys = list(range(y0, y1+1, meta_size[1]))", 'C03.f'),
+    M('M-C03f-tilelist-colmajor', 'mapproxy/grid.py', """    for y in ys:
+        for x in xs:
+            if x < 0 or y < 0 or x >= x_limit or y >= y_limit:""", """    for x in xs:
+        for y in ys:
+            if x < 0 or y < 0 or x >= x_limit or y >= y_limit:""", 'C03.f'),
+    E('E-C03f-reversed-range', 'mapproxy/grid.py', "            ys = range(maxy, miny-1, -1)\n        xs = range(minx, maxx+1)\n\n        bounds",
+      "            ys = reversed(range(miny, maxy+1))\n        xs = range(minx, maxx+1)\n\n        bounds", 'reversed(range()) is descending'),
+    M('M-C03g-extent-intersection-min', 'mapproxy/layer.py', "            max(source[1], sub[1]),\n            min(source[2], sub[2]),", "            min(source[1], sub[1]),\n            min(source[2], sub[2]),", 'C03.g'),
+    M('M-C03g-position-direction', 'mapproxy/image/__init__.py', "    if src_bbox[2] < bbox[2]:\n        sub_bbox[2] = src_bbox[2]", "    if src_bbox[2] > bbox[2]:\n        sub_bbox[2] = src_bbox[2]", 'C03.g'),
 ]
